@@ -74,6 +74,24 @@ def check(R, tier):
     R.reach('cycle 3 rejects a replayed older timestamp after an interrupted cycle 2', f + [c1.ok, z3.Not(c2.ok), c3.older_ts])
     finalize(R, sums_clean, sums_fault)
     replay_composition(R)
+    damaged_store_scenarios(R)
+
+def damaged_store_scenarios(R):
+    """always run: what an interrupted cycle can leave behind in the datastore (an empty, truncated or garbage file; a missing file) must neither lock the client
+    out of a valid repository that is at least as new, nor let an older timestamp in when the damaged file is not the timestamp"""
+    import menu
+    if R.violations: return
+    for f in ('timestamp.json', 'snapshot.json', 'targets.json'):
+        for op in ('truncate', 'garbage', 'remove'):
+            sc = menu.scenario([menu.base_root()], [menu.cyc(5), menu.cyc(6, pre=[{'op': op, 'file': f}]), menu.cyc(7)])
+            real = R.replay('history', sc); R.differential['scenarios'] += 1
+            oks = [c['ok'] for c in real['cycles']]
+            if oks[0] and not (oks[1] and oks[2]):
+                bad = real['cycles'][1] if not oks[1] else real['cycles'][2]
+                R.report_violation(f'after a cycle trusted version 5, the stored {f} is left {"empty" if op == "truncate" else ("unparsable" if op == "garbage" else "missing")} (interrupted cycle); a valid repository at version 6 / 7 is then refused: '
+                                   f'{bad.get("err")}: {bad.get("msg", "")[:140]}', sc)
+                return
+            R.differential['agree'] += 1
 
 def damage_ops(m, c1, c2):
     """datastore differences the interrupted cycle left behind, as native pre-operations for the next cycle"""
